@@ -8,6 +8,7 @@ import (
 	"fmt"
 	"os"
 	"reflect"
+	"regexp"
 	"runtime"
 	"strings"
 )
@@ -127,6 +128,14 @@ func verifDeepEqual(a, b interface{}) bool {
 	return verifDeq(va, vb, 0)
 }
 
+var verifDeqSkip *regexp.Regexp
+
+func verifDeepEqualExcept(a, b interface{}, skip string) bool {
+	verifDeqSkip = regexp.MustCompile(skip)
+	defer func() { verifDeqSkip = nil }()
+	return verifDeepEqual(a, b)
+}
+
 func verifDeq(a, b reflect.Value, depth int) bool {
 	if depth > 8 {
 		return true
@@ -172,6 +181,9 @@ func verifDeq(a, b reflect.Value, depth int) bool {
 				continue
 			}
 			if f.Type.Name() == "BaseLayer" {
+				continue
+			}
+			if verifDeqSkip != nil && verifDeqSkip.MatchString(f.Name) {
 				continue
 			}
 			if !verifDeq(a.Field(i), b.Field(i), depth+1) {
